@@ -411,10 +411,13 @@ func mutate(cp *expr.AttributeExpr, kind string) int {
 	case "add-required":
 		for _, a := range n.atts {
 			if a.Validation != nil {
-				a.Validation.AddRequired("required_by_copy")
 				if len(a.Validation.Required) > 1 {
 					a.Validation.RemoveRequired(a.Validation.Required[0])
 				}
+				if len(a.Validation.Required) > 0 {
+					a.Validation.Required[0] = "renamed_by_copy"
+				}
+				a.Validation.AddRequired("required_by_copy")
 				cnt++
 			}
 		}
@@ -488,4 +491,49 @@ func mutate(cp *expr.AttributeExpr, kind string) int {
 		panic("mutation kind " + kind)
 	}
 	return cnt
+}
+
+// unguardedCycle reports whether hashing dt would recurse forever: a cycle of user
+// types that does not pass through an Object not yet visited (expr.Hash only stops at
+// Objects it has seen). Original graphs are generated without such cycles; a copy
+// must not have one either.
+func unguardedCycle(dt expr.DataType) bool {
+	visited := map[*expr.Object]bool{}
+	var walk func(dt expr.DataType, onPath map[expr.UserType]bool) bool
+	walk = func(dt expr.DataType, onPath map[expr.UserType]bool) bool {
+		switch t := dt.(type) {
+		case *expr.Array:
+			return walk(t.ElemType.Type, onPath)
+		case *expr.Map:
+			return walk(t.KeyType.Type, onPath) || walk(t.ElemType.Type, onPath)
+		case *expr.Union:
+			for _, nat := range t.Values {
+				if walk(nat.Attribute.Type, onPath) {
+					return true
+				}
+			}
+		case *expr.Object:
+			if visited[t] {
+				return false
+			}
+			visited[t] = true
+			for _, nat := range *t {
+				if walk(nat.Attribute.Type, map[expr.UserType]bool{}) {
+					return true
+				}
+			}
+		case expr.UserType:
+			if onPath[t] {
+				return true
+			}
+			if t.Attribute() == nil {
+				return false
+			}
+			onPath[t] = true
+			defer delete(onPath, t)
+			return walk(t.Attribute().Type, onPath)
+		}
+		return false
+	}
+	return walk(dt, map[expr.UserType]bool{})
 }
